@@ -66,6 +66,11 @@ def build_tree(root, layout, depth, position, quote, with_bytes):
     for name in ('lvl1.asm', 'lvl2.asm', 'lvl3.asm'):
         for dd in ('decoy', 'other'):
             open(os.path.join(dirs[dd], name), 'w').write('decoy_%s:\n    addi x1, x1, 99\n' % name.split('.')[0])
+    # a same-named file next to an ANCESTOR of the including file must not win over the file next to the including file
+    if layout in ('subdir', 'parent', 'incdir'):
+        for name in ('lvl2.asm',):
+            if depth >= 2:
+                open(os.path.join(dirs['main'], name), 'w').write('ancestor_decoy:\n    addi x2, x2, 77\n')
     main = os.path.join(dirs['main'], 'main.asm')
     open(main, 'w').write('\n'.join(main_lines) + '\n')
 
